@@ -3,6 +3,8 @@ package c03
 import (
 	"encoding/json"
 	"fmt"
+	mcss "github.com/tdewolff/minify/v2/css"
+	mjs "github.com/tdewolff/minify/v2/js"
 	"regexp"
 	"strings"
 	"testing"
@@ -56,6 +58,20 @@ func check(c Case) (out string, err error) {
 	}
 	if e := htmltree.Compare(c.Src, out, treeOpts(c)); e != nil {
 		return out, fmt.Errorf("%v\n--- input:\n%s\n--- output:\n%s", e, c.Src, out)
+	}
+	// with the JS and CSS minifiers registered the embedded content changes, but every element still ends where it
+	// did: the document around scripts and styles is the same (what they contain is C11's and C09's business)
+	m2 := minify.New()
+	m2.AddRegexp(mk.JSRe, &mjs.Minifier{})
+	m2.Add("text/css", &mcss.Minifier{})
+	if b2, e2 := mk.Run(o, m2, []byte(c.Src), nil); e2 == nil {
+		o2 := treeOpts(c)
+		o2.RawEqual, o2.EmbeddedOpaque = false, true
+		if e := htmltree.Compare(c.Src, string(b2), o2); e != nil {
+			return string(b2), fmt.Errorf("with the JS and CSS minifiers registered: %v\n--- input:\n%s\n--- output:\n%s", e, c.Src, string(b2))
+		}
+	} else if mk.IsPanic(e2) {
+		return out, e2
 	}
 	return out, nil
 }
